@@ -267,6 +267,35 @@ func raceStorms(r *rng) []raceStorm {
 		keys.items = append(keys.items, it)
 	}
 	out = append(out, keys)
+	// one shared operation whose arguments are literals only (0..15 of them: whatever list the parser built, with or without room
+	// to spare, is shared by every evaluation), applied to a receiver that differs from goroutine to goroutine
+	{
+		la := raceStorm{name: "literal-argument-lists", iters: 600}
+		for _, fn := range []string{"Sum", "Average", "Minimum", "Maximum", "AnyOf", "Add", "Equal", "Sprintf"} {
+			for n := 0; n <= 15; n++ {
+				var args []string
+				for j := 1; j <= n; j++ {
+					args = append(args, fmt.Sprint(j))
+				}
+				if fn == "Sprintf" {
+					args = append([]string{`"%v"`}, args...)
+				}
+				q := "$.n." + fn + "(" + strings.Join(args, ",") + ")"
+				op, err := mpath.ParseString(q)
+				if err != nil || op == nil {
+					continue
+				}
+				it := raceItem{kind: "eval-variants", q: q, op: op}
+				for i := 0; i < 12; i++ {
+					data := buildAny(tvMap("str", [][2]any{{hx("n"), tvF64(float64(1000 * (i + 1)))}}))
+					it.datas = append(it.datas, data)
+					it.wants = append(it.wants, runCase(q, data).Line())
+				}
+				la.items = append(la.items, it)
+			}
+		}
+		out = append(out, la)
+	}
 	// struct types that no evaluation has seen yet, met by all goroutines at once: whatever is remembered per type is being
 	// filled in while the others already ask for it
 	{
@@ -341,6 +370,7 @@ func init() {
 		tier := args[2]
 		os.MkdirAll(dir, 0o755)
 		quietStderrUnlessRace()
+		coldM, coldCalls := coldStart() // before anything else touches the library in this process
 		r := newRng(seed)
 		nItems, rounds := 400, 12
 		if tier == "thorough" {
@@ -349,7 +379,10 @@ func init() {
 		items := raceCorpus(r, nItems)
 		type mism struct{ Kind, Q, CP, Want, Got string }
 		var mismatches []mism
-		var calls int64
+		var calls int64 = int64(coldCalls)
+		for _, m := range coldM {
+			mismatches = append(mismatches, mism{m.Kind, m.Q, m.CP, m.Want, m.Got})
+		}
 		lazyGot := map[int][]string{}
 		hist := map[string]int{}
 		goroutineCounts := []int{32, 16, 8, 4, 3, 2}
